@@ -122,13 +122,15 @@ def appendLevel0 (cs : List (Compactor ρ)) (x : Int) : List (Compactor ρ) :=
   | [] => []
   | c :: t => c.append x :: t
 
+/-- the part of `update(item)` before the capacity check: extremes, append to level 0, counters -/
+def Sketch.append1 (s : Sketch ρ) (x : Int) : Sketch ρ :=
+  { s with minItem := optMin s.minItem x, maxItem := optMax s.maxItem x,
+           compactors := appendLevel0 s.compactors x,
+           numRetained := s.numRetained + 1, n := s.n + 1 }
+
 /-- `update(item)` (NaN is filtered by the caller: `check_update_item`) -/
 def Sketch.update (T : Tun) (F : SecFns ρ) (s : Sketch ρ) (x : Int) (acc : Acc) : Sketch ρ × Acc :=
-  let s1 : Sketch ρ :=
-    { s with minItem := optMin s.minItem x, maxItem := optMax s.maxItem x,
-             compactors := appendLevel0 s.compactors x,
-             numRetained := s.numRetained + 1, n := s.n + 1 }
-  if s1.numRetained = s1.maxNomSize then s1.compress T F acc else (s1, acc)
+  if (s.append1 x).numRetained = (s.append1 x).maxNomSize then (s.append1 x).compress T F acc else (s.append1 x, acc)
 
 /-- `while (get_num_levels() < other.get_num_levels()) grow()` -/
 def growTo (T : Tun) (F : SecFns ρ) : Nat → Nat → Sketch ρ → Sketch ρ
@@ -151,17 +153,19 @@ def optMaxO (a b : Option Int) : Option Int :=
   | none => a
   | some y => optMax a y
 
+/-- `merge(other)` up to (not including) the final capacity check: extremes, grow, level-wise merge, recomputed counters -/
+def Sketch.mergePre (T : Tun) (F : SecFns ρ) (s o : Sketch ρ) : Sketch ρ :=
+  let s1 := growTo T F o.compactors.length o.compactors.length s
+  let cs := mergeLevels T F s1.compactors o.compactors
+  { s1 with minItem := optMinO s.minItem o.minItem, maxItem := optMaxO s.maxItem o.maxItem,
+            compactors := cs, n := s.n + o.n, maxNomSize := sumCap T cs, numRetained := sumItems cs }
+
 /-- `merge(other)`; `none` = throws (HRA/LRA mismatch; nothing changed) -/
 def Sketch.merge (T : Tun) (F : SecFns ρ) (s o : Sketch ρ) (acc : Acc) : Option (Sketch ρ × Acc) :=
   if s.hra != o.hra then none
   else if o.n = 0 then some (s, acc)
-  else
-    let s1 := growTo T F o.compactors.length o.compactors.length s
-    let cs := mergeLevels T F s1.compactors o.compactors
-    let s2 : Sketch ρ :=
-      { s1 with minItem := optMinO s.minItem o.minItem, maxItem := optMaxO s.maxItem o.maxItem,
-                compactors := cs, n := s.n + o.n, maxNomSize := sumCap T cs, numRetained := sumItems cs }
-    if s2.numRetained ≥ s2.maxNomSize then some (s2.compress T F acc) else some (s2, acc)
+  else if (s.mergePre T F o).numRetained ≥ (s.mergePre T F o).maxNomSize then some ((s.mergePre T F o).compress T F acc)
+  else some (s.mergePre T F o, acc)
 
 /-! ### queries -/
 
